@@ -114,6 +114,32 @@ def independent_handles(ctx):
                 ctx.violation("independent-handle:%s" % kind, "a %s handle does not work on its own (id/statepoint/document/re-key)" % kind, rep)
 
 
+def many_copies(ctx):
+    """every live shallow copy follows a re-key - also when there are many of them (the model has at most three handles)"""
+    import signac
+    for ncopies in (3, 31, 40, 70):
+        root = ctx.mkdtemp("copies")
+        p = signac.init_project(root)
+        job = p.open_job({"a": 1}).init()
+        job.doc.k = "v"
+        job.sp  # the state point dict exists: copies share it
+        copies = [copy.copy(job) for _ in range(ncopies)]
+        ctx.count(("many-copies", ncopies), traces=1)
+        for step, (editor, edit) in enumerate(((job, {"b": 2}), (copies[ncopies // 2], {"c": 3}), (copies[-1], {"b": 5}))):
+            editor.sp.update(edit)
+            want = editor.statepoint()
+            wid = core.my_id(want)
+            lag = [i for i, c in enumerate([job] + copies) if not (c.id == wid and c.path.endswith(wid) and c.statepoint() == want and dict(c.cached_statepoint) == want)]
+            if lag:
+                ctx.violation("handles-follow:many-copies", "with %d shallow copies, after re-key %d the handles %s (0 = original) do not describe the new job %s" % (ncopies, step + 1, lag[:8], wid[:6]),
+                              {"kind": "many-copies", "ncopies": ncopies, "step": step})
+                break
+        else:
+            ids = sorted(j.id for j in signac.Project(root))
+            if ids != [job.id] or job.doc() != {"k": "v"}:
+                ctx.violation("handles-follow:many-copies:workspace", "after re-keys with %d copies the workspace holds %s" % (ncopies, [i[:6] for i in ids]), {"kind": "many-copies", "ncopies": ncopies})
+
+
 def assignment_scenarios(ctx):
     """whole-assignment / update_statepoint over value-shape changes the token universe does not contain"""
     import signac
@@ -165,6 +191,7 @@ def run(ctx):
     F.run_recorded(ctx, PID, "random-wide", 50 if ctx.quick else 3000, 40 if ctx.quick else 60,
                    ["open_sp", "open_id", "open_iter", "copy", "readsp", "setkey", "assign", "update_sp", "init", "docset", "writefile", "remove", "move", "clone", "restart"] + F.SPEDITS)
     independent_handles(ctx)
+    many_copies(ctx)
     assignment_scenarios(ctx)
     ctx.cov["binding_selftest"] = F.selftest(ctx, PID)
 
@@ -181,6 +208,9 @@ def replay(ctx, data):
         else:
             job.sp["v"] = data["new"]["v"]
         print("after", data["route"], "->", job.statepoint(), job.id, "expected id", core.my_id(data["new"]))
+        return 0
+    if data.get("kind") == "many-copies":
+        print("scenario:", data)
         return 0
     if data.get("kind") == "independent-handle":
         print("scenario:", data)
